@@ -1,8 +1,15 @@
 #!/bin/bash
 # tools/run_neutral.sh <patch> — apply a behaviour-preserving patch to a scratch copy of /repo and run ALL claimed checks on it (expect silence).
+# The patches were made against 864fa33; when one no longer applies to the working tree (a later fix: commit touched the same hunk) it is applied to
+# a copy of that commit instead.
 PATCH="$1"
 D=$(mktemp -d /tmp/qvneu.XXXXXX)
 rsync -a --exclude target --exclude .git /repo/ "$D/"
+if ! (cd "$D" && patch -p1 --no-backup-if-mismatch --dry-run < "$PATCH" >/dev/null 2>&1); then
+  rm -rf "$D"; D=$(mktemp -d /tmp/qvneu.XXXXXX)
+  git -C /repo archive 864fa33 | tar -x -C "$D"
+  echo "(applied on 864fa33)"
+fi
 (cd "$D" && patch -p1 --no-backup-if-mismatch < "$PATCH" >/dev/null) || { echo "patch failed"; rm -rf "$D"; exit 3; }
 QV_EVIDENCE_DIR="$D/evidence" python3 /verif/qv.py all --repo "$D" 2>&1 | grep -E "violated:|CHECK-ERROR|quick:.* [1-9][0-9]* violated" | cut -c1-420
 rm -rf "$D"
